@@ -31,6 +31,7 @@ SIG_D11 = 'C09:cost:currency-onto-bare-number'
 SIG_COST = 'C09:cost:record-model'
 SIG_COST_ATOMIC = 'C09:cost:refusal-not-atomic'
 SIG_COST_REPARSE = 'C09:cost:reparse'
+SIG_COST_RAW_ATOMIC = 'C09:cost:raw-refusal-not-atomic'
 SIG_TXN = 'C09:txn:pair-model'
 SIG_TXN_REPARSE = 'C09:txn:reparse'
 SIG_TXN_FRAME = 'C09:txn:siblings'
@@ -104,9 +105,23 @@ def gen_cost_text(rng) -> tuple[str, bool]:
     return f'    Assets:Foo  100.00 GBP {body}', listed
 
 
+RAW = {'raw_number_per': 'number_per', 'raw_number_total': 'number_total', 'raw_currency': 'currency'}
+COQ_ROP = {'raw_number_per': 'RPer', 'raw_number_total': 'RTotal', 'raw_currency': 'RCur'}
+DONOR_TEXT = '    Assets:Don  1 GBP {7 # 100 AB}'
+DONOR_CODE = {'raw_number_per': 6, 'raw_number_total': 5, 'raw_currency': 3}     # NUMS[6]=7, NUMS[5]=100, CURS[3]='AB'
+
+
 def gen_cost_ops(rng, n):
+    """[prop, value code] (value level) or [raw prop, value code, mode] with mode in none/fresh/copy/attached:
+    a fresh node, a deep copy of a node of another posting, or that node itself (must be refused)."""
     ops = []
     for _ in range(n):
+        if rng.random() < 0.3:
+            p = rng.choice(list(RAW))
+            mode = rng.choice(['none', 'fresh', 'copy', 'attached', 'attached'])
+            vc = None if mode == 'none' else (rng.randrange(len(COST_TABLE[RAW[p]])) if mode == 'fresh' else DONOR_CODE[p])
+            ops.append([p, vc, mode])
+            continue
         p = rng.choice(COST_PROPS + ('number_per', 'number_total', 'currency'))
         if p == 'merge':
             ops.append([p, rng.random() < 0.5])
@@ -158,22 +173,40 @@ def ref_tuple(ref):
     return tuple(ref[p] for p in COST_PROPS)
 
 
+def raw_node(prop, vc, mode, donor):
+    import copy
+    models, _, _ = impl()
+    if mode == 'none':
+        return None
+    if mode == 'fresh':
+        v = COST_TABLE[RAW[prop]][vc]
+        return models.Currency.from_value(v) if prop == 'raw_currency' else models.NumberExpr.from_value(v)
+    node = getattr(donor.cost, prop)
+    return copy.deepcopy(node) if mode == 'copy' else node
+
+
 def run_cost_walk(text: str, ops, listed: bool):
     """Run one assignment sequence on the real CostSpec.  Returns (init observation, steps, failure|None)."""
     models, parser, _ = impl()
     posting = parser.parse(text, models.Posting)
+    donor = parser.parse(DONOR_TEXT, models.Posting)
+    donor_snap = (text_of(donor), observe_cost(donor.cost))
     cs = posting.cost
     init = observe_cost(cs)
     ref = dict(zip(COST_PROPS, init['getters']))
     steps, failure = [], None
     saw_cur_and_num = False
-    for k, (prop, vc) in enumerate(ops):
-        value = vc if prop == 'merge' or vc is None else COST_TABLE[prop][vc]
+    for k, op in enumerate(ops):
+        prop, vc = op[0], op[1]
+        mode = op[2] if len(op) > 2 else None
         before_text = text_of(posting)
         before_obs = observe_cost(cs)
         res = 0
         try:
-            setattr(cs, prop, value)
+            if mode is not None:
+                setattr(cs, prop, raw_node(prop, vc, mode, donor))
+            else:
+                setattr(cs, prop, vc if prop == 'merge' or vc is None else COST_TABLE[prop][vc])
         except Exception as e:  # the class is all that is compared
             res = EXN_NUM.get(common.exn_name(e), 8)
         obs = observe_cost(cs)
@@ -181,17 +214,33 @@ def run_cost_walk(text: str, ops, listed: bool):
         steps.append(obs)
         kinds = [c[0] for c in obs['comps']]
         saw_cur_and_num = saw_cur_and_num or ('KCurrency' in kinds and 'KNumber' in kinds)
-        if not listed or failure:
+        where = {'kind': 'cost', 'text': text, 'ops': ops[:k + 1], 'listed': listed}
+        unchanged = (text_of(posting) == before_text and
+                     (obs['brace'], obs['comps']) == (before_obs['brace'], before_obs['comps']))
+        donor_same = (text_of(donor), observe_cost(donor.cost)) == donor_snap
+        if failure:
             continue
-        ref, want_res = ref_apply(ref, prop, vc)
-        where = {'kind': 'cost', 'text': text, 'ops': ops[:k + 1]}
+        if mode == 'attached':
+            # C19 for the raw setters: an attached node is refused and nothing (target, donor) has changed;
+            # demanded from every initial form, listed or not
+            if res != 1 or not unchanged or not donor_same:
+                failure = (SIG_COST_RAW_ATOMIC,
+                           f'{prop} = <node attached to another posting> on {before_text.strip()!r}: result code {res} '
+                           f'(1 = ValueError expected), target now {text_of(posting).strip()!r}, donor '
+                           f'{"unchanged" if donor_same else "changed to " + repr(text_of(donor).strip())}', where)
+            continue
+        if not donor_same and mode != 'attached':
+            failure = (SIG_COST_RAW_ATOMIC, f'{prop} ({mode}) changed the donor posting to {text_of(donor).strip()!r}', where)
+            continue
+        if not listed:
+            continue
+        ref, want_res = ref_apply(ref, RAW.get(prop, prop), vc)
         if res != want_res or obs['getters'] != ref_tuple(ref):
             sig = SIG_D11 if saw_cur_and_num else SIG_COST
             failure = (sig, f'after {fmt_ops(ops[:k + 1])} on {text.strip()!r}: getters/result '
                             f'{obs["getters"]}/{res}, record model says {ref_tuple(ref)}/{want_res} '
                             f'(printed: {text_of(posting).strip()!r})', where)
-        elif res != 0 and (text_of(posting) != before_text or
-                           (obs['brace'], obs['comps']) != (before_obs['brace'], before_obs['comps'])):
+        elif res != 0 and not unchanged:
             failure = (SIG_COST_ATOMIC, f'refused {prop} assignment changed the model: {before_text.strip()!r} -> '
                                         f'{text_of(posting).strip()!r}', where)
         else:
@@ -214,10 +263,12 @@ EXN_NUM = {'ValueError': 1, 'IndexError': 2, 'KeyError': 3, 'AssertionError': 4,
 
 def fmt_ops(ops):
     out = []
-    for p, vc in ops:
-        tab = COST_TABLE.get(p) or TXN_TABLE.get(p)
+    for op in ops:
+        p, vc = op[0], op[1]
+        tab = COST_TABLE.get(RAW.get(p, p)) or TXN_TABLE.get(p)
         v = vc if (p == 'merge' or vc is None or tab is None) else tab[vc]
-        out.append(f'{p} = {v!r}' if not isinstance(v, D) else f'{p} = {v}')
+        txt = f'{p} = {v!r}' if not isinstance(v, D) else f'{p} = {v}'
+        out.append(txt + (f' <{op[2]} node>' if len(op) > 2 and op[2] != 'none' else ''))
     return '; '.join(out)
 
 
@@ -243,22 +294,36 @@ def coq_spec(g):
     return f'(mkspec {oz(g[0])} {oz(g[1])} {oz(g[2])} {oz(g[3])} {oz(g[4])} {coq_bool(g[5])})'
 
 
-def coq_cop(prop, vc):
-    return f'{COQ_OP[prop]} {coq_bool(vc) if prop == "merge" else oz(vc)}'
+def coq_cstep(op):
+    prop, vc = op[0], op[1]
+    if len(op) > 2:
+        return f'SRaw {COQ_ROP[prop]} {oz(vc)} {coq_bool(op[2] == "attached")}'
+    return f'SVal ({COQ_OP[prop]} {coq_bool(vc) if prop == "merge" else oz(vc)})'
 
 
 def coq_ccase(fixed, listed, init, ops, steps):
-    body = coq_list(f'({coq_cop(p, vc)}, mkcobs {coq_z(s["res"])} {coq_cost(s)} {coq_spec(s["getters"])})'
-                    for (p, vc), s in zip(ops, steps))
-    return f'mkccase {coq_bool(fixed)} {coq_bool(listed)} {coq_cost(init)} {coq_spec(init["getters"])} {body}'
+    body = coq_list(f'({coq_cstep(op)}, mkcobs {coq_z(s["res"])} {coq_cost(s)} {coq_spec(s["getters"])})'
+                    for op, s in zip(ops, steps))
+    fx, late = fixed
+    return (f'mkccase {coq_bool(fx)} {coq_bool(late)} {coq_bool(listed)} {coq_cost(init)} '
+            f'{coq_spec(init["getters"])} {body}')
 
 
-def probe_fixed() -> bool:
+def probe_fixed() -> tuple[bool, bool]:
     """Does the tree under test merge a currency assigned onto a bare number into an Amount (D11 repair)?"""
     models, parser, _ = impl()
     p = parser.parse('    Assets:Foo  1 GBP {1}', models.Posting)
     p.cost.currency = 'CAD'
-    return [enc_comp(c)[0] for c in p.cost.raw_cost.raw_components] == ['KAmount']
+    d11 = [enc_comp(c)[0] for c in p.cost.raw_cost.raw_components] == ['KAmount']
+    # does a refused raw assignment (attached node) still flip the braces first?
+    a = parser.parse('    Assets:Foo  1 GBP {{}}', models.Posting)
+    b = parser.parse(DONOR_TEXT, models.Posting)
+    try:
+        a.cost.raw_number_per = b.cost.raw_number_per
+    except Exception:
+        pass
+    late = not isinstance(a.cost.raw_cost, models.TotalCost)
+    return d11, late
 
 
 def shrink_ops(fails, ops, budget=40):
@@ -299,8 +364,8 @@ def check_cost(ctx: common.Ctx, fixed: bool):
                  or any([c[0] for c in s['comps']] != [c[0] for c in init['comps']] for s in steps))
         ctx.dist('cost_init=' + init['brace'] + ':' + ('+'.join(al) or 'none') + (':listed' if listed else ':odd'))
         ctx.dist(f'cost_init_other_components={len(init["comps"]) - len(al)}')
-        for (p, vc), s in zip(ops, steps):
-            ctx.dist(f'cost_op={p}:{"None" if vc is None else "value"}')
+        for op, s in zip(ops, steps):
+            ctx.dist(f'cost_op={op[0]}:{(op[2] if len(op) > 2 else ("None" if op[1] is None else "value"))}')
             if s['res']:
                 ctx.dist('cost_refused')
         ctx.count('impl_steps', len(steps))
@@ -754,7 +819,7 @@ def dec_value(e):
 # =============================================================================================
 def body(ctx: common.Ctx):
     fixed = probe_fixed()
-    ctx.notes.append(f'D11 repair present in the tree under test: {fixed}')
+    ctx.notes.append(f'(D11 repair present, raw setters flip braces before consuming the node) in the tree under test: {fixed}')
     check_cost(ctx, fixed)
     check_from_value(ctx)
     check_txn(ctx)
@@ -768,7 +833,7 @@ def run(ctx: common.Ctx):
                 'the correspondence only; 1-8 (thorough: 2-16) random assignments incl. None and values that must be '
                 'refused; non-trivial = a refusal, a brace flip or a change of component kinds happened. '
                 'txn: headers with 0/1/2 strings, tags, comment, meta, postings x 1-6 payee/narration assignments. '
-                'generic: every public required/optional value property of every tree model reachable in the sample '
+                'cost walks mix in 30% raw-level assignments (raw_number_per/raw_number_total/raw_currency) with None, a fresh node, a deep copy of another posting\'s node, or that attached node itself (must be refused, target and donor unchanged). generic: every public required/optional value property of every tree model reachable in the sample '
                 'documents x values of its domain incl. None. from_value: random argument records.')
     ctx.assumptions += [
         'RepeatedNodeWrapper.insert/append/pop/__setitem__ on the cost components are the plain list operations '
@@ -777,7 +842,10 @@ def run(ctx: common.Ctx):
         'lark gives a lone transaction string to the first _optional_string (observed on every parsed case)',
         'Cost.v transcribes cost_spec.py with fixes/costspec-currency-onto-number.patch applied; against a tree '
         'without the patch the correspondence uses the unrepaired variant (apply_gen false), which '
-        'C09_cost_unrepaired_refuted shows not to satisfy the property',
+        'C09_cost_unrepaired_refuted shows not to satisfy the property; likewise the statement order of the raw '
+        'setters is that of fixes/costspec-raw-setter-atomic.patch (probed; rapply_gen .. late=true otherwise)',
+        'an attached node is refused by from_children / child and component assignment before they write '
+        '(replace_node, _check_detachable: C19/C05); observed on every attached-donor step',
     ]
     ctx.require_coq(['properties/C09'], extra_targets=['CostRun'])
     body(ctx)
